@@ -126,6 +126,16 @@ def handle (op : String) (req : Json) : Except String Json :=
     match load spec («export» d) with
     | some e => pure (specViews d e (applicable used prim (d.marsh.map (·.1))))
     | none => pure (Json.mkObj [("invalid", true)])
+  | "c13.loadfile" => do
+    -- `Resolver.load_external` on the documents of the given files, in order, into one registry
+    let spec ← req.getObjVal? "spec" >>= specOfJson
+    let ds ← req.getObjVal? "docs" >>= (·.getArr?)
+    let docs ← ds.toList.mapM docOfJson
+    let keyJ := fun (k : List String × String) => Json.arr #[Json.arr (k.1.map Json.str).toArray, Json.str k.2]
+    match loadFile spec docs [] with
+    | .ok reg => pure (Json.mkObj [("registered", Json.arr (reg.map (fun en => Json.mkObj [("key", keyJ en.key), ("located", en.located)])).toArray)])
+    | .invalid => pure (Json.mkObj [("invalid", true)])
+    | .duplicate k => pure (Json.mkObj [("duplicate", keyJ k)])
   | _ => throw s!"unknown op {op}"
 
 end Pydjinni.Drv.C13
